@@ -181,6 +181,24 @@ NOT_YET = {}
 
 ALL = [f'C{n:02d}' for n in range(1, 21)]
 
+# later strengthening of the workloads (second to fourth seeded wave), appended to the level texts
+EXTRA = {
+    'C02': ' A fifth of the lenses are traced once, edited through the public setters and judged against the edited prescription.',
+    'C03': ' Also on lenses edited after a first use, with curved object surfaces and with fields entered in any order.',
+    'C04': ' A quarter of the lenses are queried once, edited through the public setters and queried again.',
+    'C05': ' A third of the lenses are used once and edited before the measurement.',
+    'C06': ' Included: the same bundle written by hand (RealRays with shared caller arrays), a convex paraboloid (virtual focus), '
+           'a catalogue-glass singlet evaluated at a non-primary wavelength, a singlet made stigmatic by set_index after its first use.',
+    'C07': ' Seventh relation: a lens edited after its first use equals the edited prescription built from scratch.',
+    'C09': ' A fifth of the analysed lenses are used and edited first (oracle traces a lens built from scratch); RMS-vs-field over every named distribution.',
+    'C10': ' Several fit objects are kept alive and read late (what an earlier object reports must not change).',
+    'C12': ' A fifth of the analysed lenses are used and edited first (oracle traces a lens built from scratch).',
+    'C13': ' One analysis object queried twice must answer the same; a hand-made RealRays bundle leaves the caller\'s (shared) arrays untouched.',
+    'C14': ' Bounds of exactly zero are generated; two fixed runs per front end in the quick tier.',
+    'C16': ' A seventh of the lenses are traced once and edited before the judged trace.',
+    'C17': ' The rotation sense of element angles is read from the named polarizers (H -> L45) and required of retarders and diattenuator.',
+}
+
 
 def main():
     checks = []
@@ -188,6 +206,7 @@ def main():
         if pid not in BUILT:
             continue
         tech, text, note, ref = BUILT[pid]
+        text = text + EXTRA.get(pid, '')
         checks.append(dict(
             property_id=pid,
             quick_cmd=f'./vcheck {pid} --tier quick',
